@@ -63,7 +63,7 @@ Definition hp_out_eqb (a b : hp_out) : bool :=
 (* reasons: 1 the model does not allow the observed Transport choice, 2 output differs from the
    model, 7 a request reached something else than the owner of the most specific current route
    (the property itself), 5 register outcome differs from the specification *)
-Fixpoint check_http (st : hp_state) (spec : list (route Z)) (i : Z) (ops : list (hp_op * hp_out)) : Z :=
+Fixpoint check_http (with_monitor : bool) (st : hp_state) (spec : list (route Z)) (i : Z) (ops : list (hp_op * hp_out)) : Z :=
   match ops with
   | [] => 0
   | (o, out) :: r =>
@@ -77,13 +77,19 @@ Fixpoint check_http (st : hp_state) (spec : list (route Z)) (i : Z) (ops : list 
         | HUnRegister d l u => (rs_del spec d l u, true, 0)
         | HBegin _ _ _ host path user _ => (spec, hp_out_eqb out (hp_spec_out (fun z => z) spec host path user), 7)
         | HEnd _ => (spec, true, 0)
+        | HGroupJoin _ d l u owner =>
+            match rs_add spec d l u owner with
+            | Some sp => (sp, hp_out_eqb out HRegOk, 5)
+            | None => (spec, hp_out_eqb out HRegConflict, 5)
+            end
+        | HGroupLeave d l u => (rs_del spec d l u, true, 0)
         end in
       match mon with
       | (spec', ok, why) =>
-          if negb ok then 10 * i + why
+          if with_monitor && negb ok then 10 * i + why
           else match hp_step st o with
                | None => 10 * i + 1
-               | Some (st', mout) => if hp_out_eqb mout out then check_http st' spec' (i + 1) r else 10 * i + 2
+               | Some (st', mout) => if hp_out_eqb mout out then check_http with_monitor st' spec' (i + 1) r else 10 * i + 2
                end
       end
   end.
@@ -92,7 +98,15 @@ Definition check_case (c : case) : Z :=
   match c with
   | CRouter _ ops => check_router rt_empty [] 0 ops
   | CCanon h res => if optB_eqb (rt_canonical_host h) res then 0 else 4
-  | CHttp ops => check_http hp_init [] 0 ops
+  | CHttp ops => check_http true hp_init [] 0 ops
+  end.
+
+(* model against implementation only (used where the model reproduces a recorded defect, so that the
+   property monitor is evaluated separately) *)
+Definition check_case_model_only (c : case) : Z :=
+  match c with
+  | CHttp ops => check_http false hp_init [] 0 ops
+  | _ => check_case c
   end.
 
 (* the property monitor alone, on an observed trace (specification only, no mechanism model) *)
@@ -122,6 +136,12 @@ Fixpoint C06_holds_http (spec : list (route Z)) (ops : list (hp_op * hp_out)) : 
   | (HBegin _ _ _ host path user _, out) :: r =>
       hp_out_eqb out (hp_spec_out (fun z => z) spec host path user) && C06_holds_http spec r
   | (HEnd _, _) :: r => C06_holds_http spec r
+  | (HGroupJoin _ d l u owner, out) :: r =>
+      match rs_add spec d l u owner with
+      | Some sp => hp_out_eqb out HRegOk && C06_holds_http sp r
+      | None => hp_out_eqb out HRegConflict && C06_holds_http spec r
+      end
+  | (HGroupLeave d l u, _) :: r => C06_holds_http (rs_del spec d l u) r
   end.
 
 Definition C06_holds (c : case) : bool :=
@@ -179,3 +199,29 @@ Definition http_counter (what : Z) (c : case) : Z :=
    number of HEnd whose connection key id is no longer registered *)
 Definition is_router (c : case) : bool := match c with CRouter _ _ => true | _ => false end.
 Definition is_http (c : case) : bool := match c with CHttp _ => true | _ => false end.
+
+(* requests routed while the idle pool holds a connection made for an EARLIER registration of the
+   same (host, location, user) triple: the situations in which a pool key without the registration
+   number would hand the request to the former owner's backend *)
+Fixpoint count_stale (st : hp_state) (ops : list (hp_op * hp_out)) : Z :=
+  match ops with
+  | [] => 0
+  | (o, _) :: r =>
+      (match o with
+       | HBegin _ _ _ host path user _ =>
+           match rt_get_vhost (hp_routes st) (rt_canon_or_empty host) path user with
+           | Some x =>
+               let rc := rt_pay x in
+               if existsb (fun c => match cn_key c with
+                                    | KRoute d l u _ i =>
+                                        bytes_eqb (lower d) (lower (rc_dom rc)) && bytes_eqb l (rc_loc rc) &&
+                                        bytes_eqb u (rc_user rc) && negb (i =? rc_id rc)
+                                    | KHost _ => false
+                                    end) (hp_idle st)
+               then 1 else 0
+           | None => 0
+           end
+       | _ => 0
+       end) + match hp_step st o with Some (st', _) => count_stale st' r | None => 0 end
+  end.
+Definition stale_counter (c : case) : Z := match c with CHttp ops => count_stale hp_init ops | _ => 0 end.
